@@ -18,6 +18,7 @@
 #include <deque>
 #include <set>
 #include "mainloop_fixture.h"
+#include "pollq.h"
 
 using namespace ebusd;
 using namespace fx;
@@ -236,7 +237,7 @@ static void resetState(Ctx* c) {
     m->m_lastUpdateTime = 0; m->m_lastChangeTime = 0; m->m_pollPriority = 0;
     m->m_lastMasterData.clear(); m->m_lastSlaveData.clear();
   }
-  c->w->messages->m_pollMessages.c.clear();
+  vp::pollQueueClear(&c->w->messages->m_pollMessages);
   c->w->protocol->sent.clear();
   g_now += 1000;
 }
@@ -264,7 +265,7 @@ static string effDefault(const Acl& a) { return a.dsrc == "none" ? "" : a.D; }
 // ---- observation + judgement of one end-to-end case -----------------------------------------------
 static bool isDenied(result_t r) { return r == RESULT_ERR_NOTFOUND || r == RESULT_ERR_NOTAUTHORIZED; }
 static bool inPollQueue(Ctx* c, Message* m) {
-  for (Message* x : c->w->messages->m_pollMessages.c) if (x == m) return true;
+  for (Message* x : vp::pollQueueItems(c->w->messages->m_pollMessages)) if (x == m) return true;
   return false;
 }
 // authentication states: only "ok" authenticates.  The wrong secrets are unrelated to the right one (bad), a
